@@ -18,3 +18,5 @@ pub mod container;
 pub mod cffgen;
 pub mod otl;
 pub mod varext;
+pub mod wrap;
+pub mod cffx;
